@@ -18,10 +18,7 @@ package main
 //     same receiver) locks that mu itself; sync.Mutex is not re-entrant.  The same
 //     obligation is stated over the translated data in coq/Properties/C12_gen_r8.v.
 //
-// (3) c12.pingreg — the ping registry over time: entries back-dated through an add-only
-//     hook (what an unanswered ping is after 30 s on a connection that other traffic keeps
-//     alive) while the real pinger ticks; calls keep returning, Connection.mu is never
-//     stuck, the expired entries are forgotten, fresh ones stay.
+// Not done: a wall-clock scenario with a back-dated ping registry entry (needs an add-only hook).
 
 import (
 	"bytes"
@@ -95,13 +92,13 @@ func c12GreetPackets(variant, k, gen int) [][]byte {
 	case 1:
 		return [][]byte{c12Pong(1000 + gen)}
 	case 2:
-		return [][]byte{c12Answer(unk, c12Data(7<<11 | 40))}
+		return [][]byte{c12Answer(unk, c12Data(7<<11|40))}
 	case 3:
 		return [][]byte{c12Nonce()}
 	case 4:
 		return [][]byte{c12Junk(0), c12Junk(1), c12Junk(5)}
 	case 5: // longer than the 4096 bytes of a bufio.Reader
-		return [][]byte{c12Answer(unk, c12Data(1<<11 | 2047)), c12Pong(5), c12Answer(unk, c12Data(2<<11 | 2047)), c12Junk(6), c12Answer(unk, c12Data(3<<11 | 1200))}
+		return [][]byte{c12Answer(unk, c12Data(1<<11|2047)), c12Pong(5), c12Answer(unk, c12Data(2<<11|2047)), c12Junk(6), c12Answer(unk, c12Data(3<<11|1200))}
 	}
 	return nil
 }
